@@ -21,7 +21,7 @@ from . import facts as F
 from .core import Ctx
 from .facts import callee, resolved, strip, peel, lit_value, walk, ARRAY
 from .show import show
-from .symalg import Frac, Poly, Unsupported
+from .symalg import ONE,  Frac, Poly, Unsupported
 
 RANGE = "core::ops::range::Range"
 
@@ -46,6 +46,7 @@ class Nest:
         self.opaque = set()     # variables bound by patterns this model does not interpret (never turned into atoms)
         self.assigned = set()   # variables that are re-assigned somewhere (other than counters)
         self.parent_loop = {}   # id(loop node) -> enclosing loops (outer..inner)
+        self.loopstart = {}     # loop var -> start expression, for loops that do not start at 0
         self.pos = {}           # id(node) -> (pre-order number, enclosing loops)
         self._order = 0
         self._anon = 0
@@ -94,7 +95,10 @@ class Nest:
             if its.get("k") == "Adt" and its.get("adt") == RANGE and pat.get("k") in ("Binding", "Wild"):
                 start = [f_["e"] for f_ in its["fields"] if f_["name"] == "start"]
                 end = [f_["e"] for f_ in its["fields"] if f_["name"] == "end"]
-                if start and lit_value(start[0]) == 0 and end:
+                if start and end and (lit_value(start[0]) == 0 or pat.get("k") == "Binding"):
+                    if lit_value(start[0]) != 0:
+                        # `for j in s..n`: the variable still ranges inside 0..n; what starts later is only which elements are visited
+                        self.loopstart[pat["v"]] = start[0]
                     if pat.get("k") == "Wild":
                         # `for _ in 0..n`: an index nobody reads; it still counts iterations
                         self._anon += 1
@@ -289,11 +293,38 @@ class IdxEval:
         precede the site)"""
         nest = self.nest
         ups = []
+
+        def cond_frames(ctx):
+            return [(fr[0], id(fr[1]), fr[2]) for fr in ctx if len(fr) >= 3 and (fr[0] in ("if", "guard", "logic") or (fr[0] == "arm" and not str(fr[1].get("source", "")).startswith("ForLoopDesugar")))]
+        site_frames = None
+        if site is not None:
+            for b in nest.bodies:
+                for n, ctx in F.walk_ctx(nest.facts.root(b)):
+                    if n is site:
+                        site_frames = cond_frames(ctx)
+            if site_frames is None:
+                # a synthetic node (block copy): located through a node it contains
+                inner = [x for x in walk(site) if id(x) in nest.pos and x is not site]
+                for b in nest.bodies:
+                    for n, ctx in F.walk_ctx(nest.facts.root(b)):
+                        if inner and n is inner[0]:
+                            site_frames = cond_frames(ctx)
         for b in nest.bodies:
             root = nest.facts.root(b)
             for n, ctx in F.walk_ctx(root):
                 if n.get("k") in ("AssignOp", "Assign") and F.var_of(n["l"]) == v and strip(n["l"]).get("k") in ("VarRef", "UpvarRef"):
-                    cond = any(fr[0] in ("if", "guard", "logic") or (fr[0] == "arm" and not str(fr[1].get("source", "")).startswith("ForLoopDesugar")) for fr in ctx)
+                    uf = cond_frames(ctx)
+                    if site_frames is not None and uf == site_frames[:len(uf)]:
+                        cond = False            # under the same branches as the reading site: unconditional as far as the site is concerned
+                    elif site_frames is not None and uf and all(fr[0] == "if" for fr in ctx if len(fr) >= 3 and (fr[0], id(fr[1]), fr[2]) in uf):
+                        # inside a branch the site is not in: irrelevant if that branch never falls through to the site
+                        outer = [fr for fr in ctx if len(fr) >= 3 and fr[0] == "if" and (fr[0], id(fr[1]), fr[2]) in uf and (fr[0], id(fr[1]), fr[2]) not in site_frames]
+                        leaves = outer and all(F._diverging(fr[1]["then"] if fr[2] == "then" else fr[1]["else"]) or _ends_with_return(fr[1]["then"] if fr[2] == "then" else fr[1].get("else")) for fr in outer[:1])
+                        if leaves:
+                            continue
+                        cond = True
+                    else:
+                        cond = bool(uf)
                     ups.append((n, cond))
         if not ups:
             raise Abstain("counter %s is never updated" % self.name_of(v))
@@ -332,6 +363,8 @@ class IdxEval:
                 if any(l is None for l in lu) or lu[:len(decl)] != decl or len(lu) == len(decl):
                     raise Abstain("counter %s is not updated inside a nest of plain range loops nested in its declaration" % self.name_of(v))
                 lu = lu[len(decl):]
+                if any(l in nest.loopstart for l in lu):
+                    raise Abstain("counter %s runs in a loop that does not start at 0" % self.name_of(v))
                 if any(("i:" + l) in d.atoms() for l in lu):
                     raise Abstain("the increment of %s varies with the loops it is in" % self.name_of(v))
                 if spos is None:
@@ -365,6 +398,20 @@ class IdxEval:
 
     def extent(self, lv):
         return self.poly(self.nest.loopvars[lv][0])
+
+
+def _ends_with_return(blk):
+    blk = strip(blk) if blk is not None else None
+    if not isinstance(blk, dict):
+        return False
+    if blk.get("k") == "Return":
+        return True
+    if blk.get("k") == "Block":
+        if blk.get("e") is not None:
+            return _ends_with_return(blk["e"])
+        if blk["stmts"] and blk["stmts"][-1]["s"] == "expr":
+            return _ends_with_return(blk["stmts"][-1]["e"])
+    return False
 
 
 def _origin_tuple(nest, v, hops=0):
@@ -407,6 +454,27 @@ def _accesses(nest):
                 if ix is not None and ity == fl:
                     stores.add(id(ix.get("_call", ix)))
                     out.append(("store" if n["k"] == "Assign" else "store" + str(n.get("op", "")).replace("Assign", ""), ix, n, b))
+        # block copies: `out[a..a+n].copy_from_slice(&in[b..b+n])` is `for t in 0..n { out[a+t] = in[b+t] }`
+        for n in walk(root):
+            if n.get("k") == "Call" and (callee(n) or "").rsplit("::", 1)[-1] in ("copy_from_slice", "clone_from_slice") and len(n["args"]) == 2:
+                dst = _range_slice(nest, n["args"][0])
+                src = _range_slice(nest, n["args"][1])
+                if dst is None or src is None:
+                    continue
+                nest._anon += 1
+                tv = "_t%d#copy" % nest._anon
+                ext = {"k": "Binary", "op": "Sub", "ty": "usize", "l": dst[2], "r": dst[1]}
+                loops_here = (nest.pos.get(id(n)) or (0, []))[1]
+                nest.loopvars[tv] = (ext, n, b)
+                nest.parent_loop[tv] = list(loops_here)
+                tref = {"k": "VarRef", "ty": "usize", "v": tv}
+                for kind_, (base_, lo_, _hi) in (("store", dst), ("load", src)):
+                    ix = {"k": "Index", "e": base_, "i": {"k": "Binary", "op": "Add", "ty": "usize", "l": lo_, "r": tref}, "ty": fl, "sp": n.get("sp"), "_copy": True}
+                    # reads of counters inside the synthetic index happen where the copy is
+                    nest.pos[id(ix["i"])] = nest.pos.get(id(n), (0, []))
+                    for x_ in walk(lo_):
+                        nest.pos.setdefault(id(x_), nest.pos.get(id(n), (0, [])))
+                    out.append((kind_, ix, n, b))
         for n in walk(root):
             if id(n) in stores:
                 continue
@@ -416,6 +484,27 @@ def _accesses(nest):
             elif n.get("k") == "Call" and callee(n) == INDEX_FNS[0] and ty == fl and len(n["args"]) == 2:
                 out.append(("load", _as_index(n), n, b))
     return out
+
+
+def _range_slice(nest, e, depth=0):
+    """(base slice expr, lo, hi) if e denotes `base[lo..hi]` (through borrows, derefs and one level of let)"""
+    e = peel(e)
+    if not isinstance(e, dict) or depth > 4:
+        return None
+    if e.get("k") in ("VarRef", "UpvarRef") and e["v"] in nest.lets:
+        return _range_slice(nest, nest.lets[e["v"]][0], depth + 1)
+    base = rng = None
+    if e.get("k") == "Index":
+        base, rng = e["e"], strip(e["i"])
+    elif e.get("k") == "Call" and callee(e) in INDEX_FNS and len(e["args"]) == 2:
+        base, rng = e["args"][0], strip(e["args"][1])
+    if base is None or not (isinstance(rng, dict) and rng.get("k") == "Adt" and rng.get("adt") == RANGE):
+        return None
+    lo = [f_["e"] for f_ in rng["fields"] if f_["name"] == "start"]
+    hi = [f_["e"] for f_ in rng["fields"] if f_["name"] == "end"]
+    if not lo or not hi:
+        return None
+    return (base, lo[0], hi[0])
 
 
 def _base(idx_node):
@@ -561,30 +650,66 @@ def _unroll_kernel(facts, c):
         name = b.get("name")
         where0 = "%s:%d" % (F.rel(b["file"]), b["sp"][0])
         nest = Nest(facts, b)
+        acc = [a for a in _accesses(nest) if a[3] is not b]       # block copies register their implicit index as a loop
         ev = IdxEval(nest, {})
-        roles = {}
-        info = {}
-        for lv, (end, _, body) in nest.loopvars.items():
-            if body is b:
-                continue
-            ca = _count_axis(nest, ev, end)
-            if ca:
-                roles[("win", ca[1])] = lv
-                info[ca[1]] = ca
-        # filter extents: loops whose range end is a component of the same pair as the subtrahend of the count
-        for lv, (end, _, body) in nest.loopvars.items():
-            if body is b or lv in roles.values():
-                continue
+
+        def end_var(lv):
+            """the variable a loop's extent is: directly, or after simplification (`a + n - a` for a block copy)"""
+            end = nest.loopvars[lv][0]
             v = F.var_of(end)
-            o = _origin_tuple(nest, v) if v else None
-            if o and any(info.get(ax) and info[ax][3] and _origin_tuple(nest, info[ax][3]) == o for ax in (0, 1)):
-                roles[("flt", o[1])] = lv
-            elif v and ("depth", 0) not in roles:
-                roles[("depth", 0)] = lv
+            if v:
+                return v, end
+            try:
+                p_ = ev.poly(end)
+            except (Abstain, Unsupported):
+                return None, end
+            sg = p_.n.single() if p_.d == Poly.const(1) else None
+            if sg is not None and sg[0] == 1 and len(sg[1]) == 1 and sg[1][0][0].startswith("n:") and sg[1][0][1] == ONE:
+                return sg[1][0][0][2:], end
+            return None, end
+
+        def roles_of(lvs):
+            roles, info = {}, {}
+            for lv in lvs:
+                ca = _count_axis(nest, ev, nest.loopvars[lv][0])
+                if ca:
+                    roles[("win", ca[1])] = lv
+                    info[ca[1]] = ca
+            for lv in lvs:
+                if lv in roles.values():
+                    continue
+                v, _ = end_var(lv)
+                o = _origin_tuple(nest, v) if v else None
+                if o and any(info.get(ax) and info[ax][3] and _origin_tuple(nest, info[ax][3]) == o for ax in (0, 1)):
+                    roles[("flt", o[1])] = lv
+                elif v and ("depth", 0) not in roles:
+                    roles[("depth", 0)] = lv
+            return roles, info
         need = [("win", 0), ("win", 1), ("depth", 0), ("flt", 0), ("flt", 1)]
-        if any(k not in roles for k in need) or len(nest.loopvars) < 5:
-            c.unk("unroll:%s:loops" % name, where0, "not a nest of five `0..n` loops over (window rows, window cols, depth, filter rows, filter cols): %s" % sorted(str(k) for k in roles))
+        # group the accesses by the loops around them (plus the implicit index of a block copy)
+        groups = {}
+        for kind, idx, node, body in acc:
+            loops_here = list((nest.pos.get(id(node)) or (0, []))[1])
+            if idx.get("_copy"):
+                tvs = [x["v"] for x in walk(idx["i"]) if x.get("k") == "VarRef" and x["v"].endswith("#copy")]
+                loops_here += tvs
+            groups.setdefault(tuple(loops_here), []).append((kind, idx, node, body))
+        main = None
+        others = []
+        for lvs, items in groups.items():
+            if any(l is None for l in lvs):
+                others.append((lvs, items, "a loop that is not a `0..n` range"))
+                continue
+            roles, info = roles_of(lvs)
+            if all(k in roles for k in need) and len(lvs) == 5 and main is None:
+                main = (lvs, items, roles, info)
+            else:
+                others.append((lvs, items, None))
+        if main is None:
+            c.unk("unroll:%s:loops" % name, where0, "no group of loads / stores sits in a nest of five `0..n` loops over (window rows, window cols, depth, filter rows, filter cols): %s"
+                  % sorted(str(k) for lvs, items in groups.items() for k in roles_of([l for l in lvs if l is not None])[0]))
             continue
+        lvs, items, roles, info = main
         A = ev.atom
         r, cc, k, m, n_ = (A("i:" + roles[x]) for x in need)
         try:
@@ -596,9 +721,7 @@ def _unroll_kernel(facts, c):
             want_src = k * Rimg * Cimg + (r * sr + m) * Cimg + (cc * sc + n_)
             want_dst = (r * Cc + cc) * (K * Fr * Fc) + (k * Fr + m) * Fc + n_
             done = set()
-            for kind, idx, node, body in _accesses(nest):
-                if body is b:
-                    continue
+            for kind, idx, node, body in items:
                 got = ev.poly(idx["i"])
                 cps = [p for p in facts.params(body) if p.get("pat")]
                 outv = cps[0]["pat"].get("v") if cps and cps[0]["pat"].get("k") == "Binding" else None
@@ -616,6 +739,183 @@ def _unroll_kernel(facts, c):
                 c.unk("unroll:%s:coverage" % name, where0, "load / store of the im2col closure not recognised (%s)" % sorted(done))
         except (Abstain, Unsupported) as ex:
             c.unk("unroll:%s" % name, where0, "outside the index algebra: %s" % ex)
+        # other groups: special-case branches with loops of their own.  They are judged only by a rule that can read them (none yet):
+        # reported as not decided, never taken for the main nest
+        for lvs2, items2, why2 in others:
+            if not any(kd.startswith("store") for kd, _, _, _ in items2):
+                continue
+            first = items2[0]
+            if why2 is None:
+                verdict = _judge_unroll_branch(facts, nest, ev, lvs2, items2, roles, info, end_var)
+                if verdict is not None:
+                    if verdict[0] == "ok":
+                        c.ok("unroll:%s:other-path" % name, F.loc(first[3], first[2]), verdict[1])
+                    else:
+                        c.bad("unroll:%s:other-path" % name, F.loc(first[3], first[2]), verdict[1])
+                    continue
+            c.unk("unroll:%s:other-path" % name, F.loc(first[3], first[2]), "another group of stores into the unrolled matrix (a special-case branch over %d loop(s)%s) is not compared with the documented positions"
+                  % (len(lvs2), ", " + why2 if why2 else ""))
+
+
+def _eval_frac(fr, env):
+    """numeric value of a polynomial fraction under an assignment of its atoms (None if an atom is unassigned)"""
+    from fractions import Fraction
+    from .symalg import lf_const
+
+    def ev_poly(p_):
+        tot = Fraction(0)
+        for m_, c_ in p_.t.items():
+            term = Fraction(c_)
+            for a, e in m_:
+                if a not in env:
+                    return None
+                ec = lf_const(e)
+                if ec is None or ec.denominator != 1:
+                    return None
+                term *= Fraction(env[a]) ** int(ec)
+            tot += term
+        return tot
+    n_, d_ = ev_poly(fr.n), ev_poly(fr.d)
+    if n_ is None or d_ is None or d_ == 0:
+        return None
+    return n_ / d_
+
+
+def _judge_unroll_branch(facts, nest, ev, lvs, items, roles, info, end_var):
+    """A special-case branch of the im2col routine whose store and load indices are polynomials in its own loops: compared with the
+    documented gather on a grid of small geometries that satisfy the branch's guard (the closed forms are evaluated, nothing is run).
+    -> ('ok' | 'bad', text) or None (not decidable here)"""
+    stores = [(idx, node, body) for kd, idx, node, body in items if kd == "store"]
+    loads = [(idx, node, body) for kd, idx, node, body in items if kd == "load"]
+    if len(stores) != 1 or len(loads) != 1:
+        return None
+    try:
+        D, S = ev.poly(stores[0][0]["i"]), ev.poly(loads[0][0]["i"])
+        exts = [(lv, ev.extent(lv)) for lv in lvs]
+    except (Abstain, Unsupported):
+        return None
+    need = [("win", 0), ("win", 1), ("depth", 0), ("flt", 0), ("flt", 1)]
+    var_of_role = {}
+    for ax in (0, 1):
+        var_of_role[("stride", ax)] = info[ax][2]
+        var_of_role[("filter", ax)] = info[ax][3]
+        var_of_role[("image", ax)] = info[ax][4]
+        var_of_role[("count", ax)] = end_var(roles[("win", ax)])[0]
+    var_of_role[("depth", 0)] = end_var(roles[("depth", 0)])[0]
+    if any(v is None for v in var_of_role.values()):
+        return None
+    node = stores[0][1]
+    # the guard of the branch: conditions on the path to the store, inside the closure body
+    ctx_of = None
+    for n_, ctx in F.walk_ctx(nest.facts.root(stores[0][2])):
+        if n_ is node:
+            ctx_of = ctx
+    guards = F.path_facts(ctx_of) if ctx_of is not None else []
+
+    def numeric(e, env, depth=0):
+        e = strip(e)
+        if not isinstance(e, dict) or depth > 12:
+            return None
+        k = e.get("k")
+        if k == "Literal":
+            v = lit_value(e)
+            return v if isinstance(v, (int, bool)) else None
+        if k in ("VarRef", "UpvarRef"):
+            if ("n:" + e["v"]) in env:
+                return env["n:" + e["v"]]
+            if e["v"] in nest.lets:
+                return numeric(nest.lets[e["v"]][0], env, depth + 1)
+            return None
+        if k in ("Borrow", "Deref", "Use", "Cast"):
+            return numeric(e["e"], env, depth + 1)
+        if k == "Block" and e.get("e") is not None and not e["stmts"]:
+            return numeric(e["e"], env, depth + 1)
+        if k == "Binary":
+            a, b_ = numeric(e["l"], env, depth + 1), numeric(e["r"], env, depth + 1)
+            if a is None or b_ is None:
+                return None
+            op = e["op"]
+            if op == "Div":
+                return a // b_ if b_ else None
+            if op == "Rem":
+                return a % b_ if b_ else None
+            return {"Add": a + b_, "Sub": a - b_, "Mul": a * b_, "Eq": a == b_, "Ne": a != b_, "Lt": a < b_, "Le": a <= b_, "Gt": a > b_, "Ge": a >= b_}.get(op)
+        if k == "LogicalOp":
+            a, b_ = numeric(e["l"], env, depth + 1), numeric(e["r"], env, depth + 1)
+            if a is None or b_ is None:
+                return None
+            return (a and b_) if e["op"] == "And" else (a or b_)
+        if k == "Unary" and e.get("op") == "Not":
+            a = numeric(e["e"], env, depth + 1)
+            return None if a is None else (not a)
+        return None
+    taken = 0
+    atoms = set(D.atoms()) | set(S.atoms())
+    for _, x_ in exts:
+        atoms |= set(x_.atoms())
+    for K in (1, 2):
+        for R in (2, 3, 4):
+            for C in (2, 3, 4, 5):
+                for Fr in range(1, R + 1):
+                    for Fc in range(1, C + 1):
+                        for sr in (1, 2, 3):
+                            for sc in (1, 2, 3):
+                                Cr, Cc = (R - Fr) // sr + 1, (C - Fc) // sc + 1
+                                env = {"n:" + var_of_role[("stride", 0)]: sr, "n:" + var_of_role[("stride", 1)]: sc,
+                                       "n:" + var_of_role[("filter", 0)]: Fr, "n:" + var_of_role[("filter", 1)]: Fc,
+                                       "n:" + var_of_role[("image", 0)]: R, "n:" + var_of_role[("image", 1)]: C,
+                                       "n:" + var_of_role[("count", 0)]: Cr, "n:" + var_of_role[("count", 1)]: Cc,
+                                       "n:" + var_of_role[("depth", 0)]: K}
+                                # other named quantities (e.g. the unrolled block size): from their definitions
+                                for a in sorted(atoms):
+                                    if a.startswith("n:") and a not in env:
+                                        v = numeric({"k": "VarRef", "v": a[2:]}, env)
+                                        if v is None:
+                                            return None
+                                        env[a] = v
+                                ok_ = True
+                                for cond, truth in guards:
+                                    v = numeric(cond, env)
+                                    if v is None:
+                                        return None
+                                    if bool(v) != truth:
+                                        ok_ = False
+                                        break
+                                if not ok_:
+                                    continue
+                                taken += 1
+                                ranges = []
+                                for lv, x_ in exts:
+                                    n_ = _eval_frac(x_, env)
+                                    if n_ is None or n_.denominator != 1 or n_ < 0 or n_ > 64:
+                                        return None
+                                    ranges.append(range(int(n_)))
+                                seen_d = set()
+                                for tup in itertools.product(*ranges):
+                                    env2 = dict(env)
+                                    for (lv, _), v in zip(exts, tup):
+                                        env2["i:" + lv] = v
+                                    d, s_ = _eval_frac(D, env2), _eval_frac(S, env2)
+                                    if d is None or s_ is None:
+                                        return None
+                                    d, s_ = int(d), int(s_)
+                                    seen_d.add(d)
+                                    U = K * Fr * Fc
+                                    w, off = divmod(d, U)
+                                    r_, c_ = divmod(w, Cc)
+                                    k_, rem = divmod(off, Fr * Fc)
+                                    m_, n__ = divmod(rem, Fc)
+                                    want = k_ * R * C + (r_ * sr + m_) * C + (c_ * sc + n__)
+                                    if s_ != want:
+                                        return ("bad", "a special-case branch of the im2col routine reads the wrong image element: for an image of %d x %d x %d, a %d x %d filter and stride (%d, %d) "
+                                                "(a geometry its guard admits) it copies image element %d into unrolled position %d, where the documented gather puts element %d (window (%d, %d), depth %d, filter position (%d, %d))"
+                                                % (K, R, C, Fr, Fc, sr, sc, s_, d, want, r_, c_, k_, m_, n__))
+                                if len(seen_d) != Cr * Cc * K * Fr * Fc:
+                                    return ("bad", "a special-case branch of the im2col routine fills %d of the %d unrolled positions for an image of %d x %d x %d, a %d x %d filter and stride (%d, %d)"
+                                            % (len(seen_d), Cr * Cc * K * Fr * Fc, K, R, C, Fr, Fc, sr, sc))
+    if taken == 0:
+        return None
+    return ("ok", "a special-case branch of the im2col routine agrees with the documented gather on all %d small geometries its guard admits (closed-form indices evaluated)" % taken)
 
 
 def _transpose_kernel(facts, c):
